@@ -31,6 +31,7 @@ BOUND = ("1-D point sets of refinement trees on 5 intervals [a,b] ([0,1], [-1,3]
          "trees of depth D >= ceil((m-1)/2) (quick: D <= 3 on every interval, D = 4 on two, D = 5 for m >= 6 on one; thorough: D <= 5 everywhere), where the unchanged tree reaches it. "
          "History (round 2; second interval for the small trees, every 25th of the other trees, every 5th random tree, the depth-3 anchors): the grid "
          "object is used for the mirrored tree (same number of points) first; the Function object is integrated by a GlobalTrapezoidalGrid first")
+BOUND += "; fault / magnitude additions: 2-D cases: a set_grid request refused for an unsorted stripe, then corrected, compared with a fresh object"
 RULE = BOUND + ("; one case = (configuration, a, b, points, levels); non-trivial = at least 3 points; tolerances: weights 1e-11*max(b-a, max|w_ref|), "
                 "integrals 1e-10 * int_a^b |x|^k (or * sum |w_i f(x_i)| for the non-polynomial integrand)")
 BUDGET = {"quick": 60.0, "thorough": 800.0}
